@@ -106,6 +106,8 @@ def tags(prog):
                     if it["e"].get("t") == "col" and it["n"] and it["n"] != it["e"]["name"]:
                         t.add("alias-derive")
             if op == "select":
+                if any(it["e"].get("t") == "star" for it in s["items"]):
+                    t.add("star")
                 for it in s["items"]:
                     if it["e"].get("t") == "col" and it["n"] and it["n"] != it["e"]["name"]:
                         t.add("alias-select")
